@@ -134,8 +134,16 @@ VCLAUSE(brent_1d, 40, 30000, 600000, "the start is not already within tolerance 
 	double floor_t = std::pow(8 * EPS * std::max(std::fabs(o.f0) / o.A, 0.0) / o.curvature + 1e-300, 1.0 / o.power);
 	// Brent's own criterion is tol*|x| + eps (absolute): that is "the distance implied by the requested tolerance"
 	double dist	   = 4 * (tol * (std::fabs(xmin) + std::fabs(o.x0)) + EPS * (1 + std::fabs(o.x0) + o.L)) + 4 * o.L * floor_t;
-	if(o.power == 4)
-		dist += 4 * o.L * std::pow(tol, 0.5) * 0;	// Brent bounds the abscissa, not the value: no extra term
+	// ... and the distance at which steps of the size Brent is told to take (tol*|x| + eps, tiny for a minimiser at or next to zero) no longer
+	// change the objective: |f'| * step < eps*|f|. Inside it every trial point compares equal and the method reports what it has (found by the
+	// thorough tier: cosh bowl at x0 = 0 with f0 = 8e-3, default tolerance: 6.4e-9 away, the value within 3e-12 relative of the minimum).
+	{
+		double step	  = tol * std::max(std::fabs(xmin), std::fabs(o.x0)) + EPS;
+		double tstall = std::pow(8 * EPS * (std::fabs(o.f0) + 1e-300) / (o.power * o.A * o.curvature) * o.L / step, 1.0 / (o.power - 1));
+		dist += o.L * std::min(tstall, 0.05);
+		if(tstall > 1e-6)
+			c.cls("brent_step_below_objective_resolution");
+	}
 	VCLOSE(c, "brent_convergence", xmin, o.x0, dist, "Find_Minimum on " << o.desc << " from (" << a << "," << b << ") with tol " << tol << ": distance to the true minimiser " << o.x0 << " (evaluations " << calls << ")");
 	// Find_Maximum of f is Find_Minimum of -f
 	auto neg = [&](double x) { return -o.f(x); };
